@@ -40,6 +40,11 @@ func c02Run(c *Case) (string, []Fail) {
 			if os.Getenv("C02_VERBOSE") != "" {
 				fmt.Fprintf(os.Stderr, "fresh run %d: %s\n", i, c02TraceString(res.Trace))
 			}
+			if os.Getenv("C02_RECORD") != "" && i == 0 {
+				// the fresh run as a case line (to refresh corpus/C02/*.txt after a change of the client)
+				sa, za := c02EncodeCase(scn, res)
+				fmt.Fprintf(os.Stderr, "RECORD %s\n", (&Case{Kind: c.Kind, S: sa, Z: za}).Line())
+			}
 		}
 	}
 	return out, fails
@@ -47,59 +52,79 @@ func c02Run(c *Case) (string, []Fail) {
 
 func c02Judge(kind int, scn *c02Scn, trace []c02Ev, remaining []int64, finished bool) []Fail {
 	fails := c02Oracle(scn, trace, remaining, finished)
-	if kind == 2 {
-		fails = append(fails, c02LivenessOracle(scn, trace)...)
+	// the liveness clause is judged on every trace of a connection that honours the contract (operations fail once
+	// the client has closed it); family F (kind 2) is built to provoke it
+	if kind == 2 || (scn.Bug == 0 && (scn.Flavor == 0 || scn.Flavor == 2)) {
+		fails = append(fails, c02LivenessOracle(scn, trace, kind == 2)...)
 	}
 	return fails
 }
 
-// c02LivenessOracle (scenario family 2): "while it keeps running and the upstream eventually behaves, every
-// unacknowledged chunk is retransmitted until acknowledged".  Bounded reading used here: a chunk that was
-// completely transmitted and is then neither confirmed nor transmitted again while the connection completes,
-// without any failure, at least 3 further chunk round trips (send, ack, confirmation) AND 3 pings, up to the
-// stop request, is stuck.
-func c02LivenessOracle(scn *c02Scn, trace []c02Ev) []Fail {
+// c02LivenessOracle: "while it keeps running and the upstream eventually behaves, every unacknowledged chunk is
+// retransmitted until acknowledged".  Bounded reading used here: a chunk that was completely transmitted and is
+// then neither confirmed nor transmitted again while the SAME connection, without any failure and without a
+// reconnect, completes at least 3 round trips (send, ack, confirmation) of chunks transmitted AFTER it AND at least
+// 2 pings, up to the stop request, is stuck: the upstream has answered for later chunks, so it will never answer
+// for this one, and the client keeps the connection instead of retransmitting.  (Chunks transmitted before it do
+// not count: their ACKs may still be on their way.  Nothing here depends on timing: a slow acknowledger cannot
+// confirm a later chunk before an earlier one is resolved.)  Since the repair of C02-wrong-id-ack-stuck (an ACK
+// with an unknown id ends the session) this is a VIOLATION.
+//
+// Second clause, only for the dedicated scenarios of family F (idle: true): a transmitted chunk that is neither
+// confirmed nor transmitted again while the same connection completes at least 8 pings (8 ping intervals = 96 ms,
+// the ACK timeout is 25 ms) without any failure and without a reconnect, up to the stop request, is stuck as well:
+// the client sits on a connection on which that chunk's ACK can no longer arrive (e.g. the acknowledger has ended
+// without the connection being aborted, so that the idle sender never notices).
+func c02LivenessOracle(scn *c02Scn, trace []c02Ev, idle bool) []Fail {
 	type st struct{ sentAt, rounds, pings int }
 	open := map[int64]*st{}
+	lastSent := map[int64]int{}
+	reset := func() {
+		for _, s := range open {
+			s.rounds, s.pings = 0, 0
+		}
+	}
 	var fails []Fail
 	for i, e := range trace {
 		switch e.code {
 		case c02SendRet:
 			if e.c == 1 {
 				open[e.b] = &st{sentAt: i} // (re)transmitted now
+				lastSent[e.b] = i
 			} else {
-				for _, s := range open {
-					s.rounds, s.pings = 0, 0
-				}
+				reset()
 			}
 		case c02Consumed:
 			delete(open, e.a)
 			for _, s := range open {
-				s.rounds++
+				if at, ok := lastSent[e.a]; ok && at > s.sentAt {
+					s.rounds++
+				}
 			}
 		case c02PingRet:
-			for _, s := range open {
-				if e.b == 1 {
+			if e.b == 1 {
+				for _, s := range open {
 					s.pings++
-				} else {
-					s.rounds, s.pings = 0, 0
 				}
+			} else {
+				reset()
 			}
 		case c02AckRet:
 			if e.b == 2 {
-				for _, s := range open {
-					s.rounds, s.pings = 0, 0
-				}
+				reset()
 			}
-		case c02ConnStart:
-			for _, s := range open {
-				s.rounds, s.pings = 0, 0
-			}
+		case c02ConnStart, c02Close:
+			reset()
 		case c02Stop, c02InClose:
 			for c, s := range open {
-				if s.rounds >= 3 && s.pings >= 3 {
+				if idle && s.pings >= 8 && !(s.rounds >= 3) {
+					fails = append(fails, Fail{"c02:liveness:stuck-while-idle",
+						fmt.Sprintf("chunk %d, transmitted at event %d, is neither acknowledged nor retransmitted while the same connection completes %d pings without any failure (until the stop request at event %d) | scenario: %s | trace: %s",
+							c, s.sentAt, s.pings, i, scn.String(), c02TraceString(trace))})
+				}
+				if s.rounds >= 3 && s.pings >= 2 {
 					fails = append(fails, Fail{"c02:liveness:stuck-after-unknown-ack",
-						fmt.Sprintf("chunk %d, transmitted at event %d, is neither acknowledged nor retransmitted while the upstream completes %d further chunk round trips and %d pings without any failure (until the stop request at event %d) | scenario: %s | trace: %s",
+						fmt.Sprintf("chunk %d, transmitted at event %d, is neither acknowledged nor retransmitted while the same connection completes %d round trips of chunks transmitted after it and %d pings without any failure (until the stop request at event %d) | scenario: %s | trace: %s",
 							c, s.sentAt, s.rounds, s.pings, i, scn.String(), c02TraceString(trace))})
 				}
 			}
@@ -448,6 +473,21 @@ func c02Gen(g *Gen) {
 			// the stop request comes after three more pings
 			add(2, fmt.Sprintf("F:liveness:age=%d", age), &c02Scn{N: n + 1, Cap: 2, MaxAge: age, Ack: ack, Limit: 3000,
 				Push: append(push, -(n - first + 3)), Stop: 1 << 20})
+		}
+	}
+
+	// ... and with an idle input afterwards: nothing but the ping loop runs on the connection (the sender can notice
+	// the end of the acknowledger only through the aborted connection); a second chunk arrives after 10 pings
+	for _, age := range []int{0, 30} {
+		for _, out := range []int{cAckUnknown, cAckGarbled, cAckErr, cAckBlock} {
+			for _, n := range []int{1, 2} {
+				push := []int{0}
+				if n == 2 {
+					push = append(push, -10)
+				}
+				add(2, fmt.Sprintf("F:liveness-idle:age=%d", age), &c02Scn{N: n, Cap: 2, MaxAge: age, Ack: []int{out}, Limit: 3000, Idle: 150,
+					Push: push, Stop: 1 << 20})
+			}
 		}
 	}
 
